@@ -202,6 +202,8 @@ func init() {
 			ruleReopenState(c, r, "")
 			ruleEncAvail(c, r, "")
 			ruleWriter2Split(c, r, "")
+			ruleMatchLen(c, r, "")
+			ruleDictCapRange(c, r, "")
 			{
 				// the LZMA2 chunk header both ways at its boundary values (a chunk of more than 1 MiB)
 				ct := getChunkTables(c, r, "")
@@ -243,6 +245,8 @@ func init() {
 			ruleFilterWriterDict(c, r, "")
 			ruleBlockFilters(c, r, "")
 			ruleWriter2Split(c, r, "")
+			ruleMatchLen(c, r, "")
+			ruleBlockSizeDefault(c, r, "")
 		},
 	})
 }
